@@ -76,6 +76,17 @@ def run(ctx):
     check_coverage(ctx, covered)
 
 
+ESTABLISHED_PARAMS = {
+    'MST': {'data', 'epsilon', 'delta'},
+    'mwem_pgm': {'data', 'epsilon', 'delta', 'workload', 'rounds', 'maxsize_mb', 'pgm_iters', 'noise', 'bounded', 'alpha'},
+    'adagrid': {'data', 'epsilon', 'delta', 'threshold', 'targets', 'split_strategy', 'iters'},
+}
+
+
+def is_established_param(q, p):
+    return q not in ESTABLISHED_PARAMS or p in ESTABLISHED_PARAMS[q]
+
+
 def collect(covered, w):
     for r in w.releases:
         covered[r.key()] = r
@@ -89,6 +100,14 @@ def run_config(ctx, rel, q, flags, env=None, bounded=False, pure=False, cls=None
     w = World(repo, FILES, bounded, pure)
     e = {'data': tagged('data', 'data')}
     e.update(env or {})
+    # an optional parameter this configuration table does not know (added later) is analysed at its default: every call that was possible
+    # before still means what it meant; what a non-default value promises (e.g. a public bound on record weights) is outside the identity
+    if env is not None:
+        for p_, d_ in fi.defaults().items():
+            if p_ not in e and p_ not in flags and p_ != 'self' and isinstance(d_, ast.Constant) and isinstance(d_.value, (int, float)) \
+                    and not isinstance(d_.value, bool) and not is_established_param(q, p_):
+                e[p_] = const(d_.value)
+                ctx.assume('optional parameter `%s` of %s is analysed at its default %r' % (p_, q, d_.value))
     ex = CostExec(w, fi, flags=flags, env=e, cls=cls, self_env=self_env)
     ex.run()
     label = '%s[%s]' % (q, ', '.join('%s=%s' % kv for kv in sorted(flags.items()) if kv[0] not in ('workload', 'rounds')) or 'default')
